@@ -303,6 +303,18 @@ func structuredMutants() []mutant {
 	turn("proposal", "fs-unexpected", "FS +\r")
 	turn("proposal", "pm-lines", ";PM: a b 1 c d\r;PM:\r;PM: x\r;PM: a b c d e f g\r"+block(okLine)+goodFrame+"FF\r")
 	turn("proposal", "comments-2000", strings.Repeat("; c\r", 2000)+"FF\r")
+	// very long runs of lines that are legal to skip, where a command is awaited (both roles; also
+	// while the answer to the station's own proposals is awaited): nothing may grow with their number
+	for _, n := range []int{100000, 400000, 1500000} {
+		for name, l := range map[string]string{"empty": "\r", "semicolon": ";\r", "pm": ";PM: a b 1 c d\r", "lf": "\n\r"} {
+			if n > 400000 && name != "empty" && name != "semicolon" {
+				continue
+			}
+			turn("skipped-lines", fmt.Sprintf("%s-x%d", name, n), strings.Repeat(l, n)+"FF\r")
+			add("skipped-lines", fmt.Sprintf("%s-x%d/before-answer/slave", name, n), slaveOut, masterHS+strings.Repeat(l, n)+"FS +++\rFF\r")
+		}
+		add("skipped-lines", fmt.Sprintf("motd-x%d/slave", n), slaveEmpty, strings.Repeat("m\r", n)+masterHS+"FF\r")
+	}
 	turn("proposal", "dup-mid-in-block", block(okLine, okLine, okLine)+goodFrame+"FF\r")
 	turn("proposal", "err-line", "*** something broke\r")
 	turn("proposal", "one-char-lines", "F\rX\r;\r*\r")
